@@ -409,6 +409,8 @@ def main(argv=None):
     }
     if res.get("exhaustive") is not None:
         coverage["exhaustive"] = bool(res.get("exhaustive"))
+    for k, v in (res.get("extra") or {}).items():
+        coverage.setdefault(k, v)
     for k in ("programs", "disagreements_checked", "states", "transitions", "traces_validated_against_impl", "explanation"):
         if k in res:
             coverage[k] = res[k]
